@@ -182,6 +182,13 @@ def run_batch(item):
                             any(('n=%d*/' % n) in e['sql'] for n in o['serials']):
                         seen_sql.append(e['sql'])
                 o['landed'] = sorted(set(landed))
+                by = {}
+                for e in evs:
+                    if e.get('client') == name and e.get('ev') in ('exec', 'Parse'):
+                        n = e.get('n') if e.get('ev') == 'exec' else W_TAG(e.get('sql', ''))
+                        if n in o['serials']:
+                            by.setdefault(str(n), []).append(e['be'])
+                o['landed_by_serial'] = by
                 o['forwarded_sql'] = seen_sql
             # untagged queries: did any backend see exactly this text?
             for o, st in zip(obs, s['steps']):
